@@ -2,6 +2,8 @@ package sym
 
 import (
 	"fmt"
+	"os"
+	"time"
 	"go/token"
 	"go/types"
 	"sort"
@@ -197,8 +199,9 @@ func (p *Program) isInterpPkg(path string) bool {
 // ---- per-worker machine ----
 
 type choice struct {
-	alts []int
-	cur  int
+	alts   []int
+	cur    int
+	models []map[string]uint64 // a satisfying assignment of the path condition per alternative (nil = not known)
 }
 
 type NdVar struct {
@@ -261,6 +264,7 @@ type Machine struct {
 	steps    int
 	depth    int
 	pcMaybe  bool // a feasibility query on this path returned unknown
+	model    map[string]uint64 // assignment satisfying pc (nil = unknown)
 	observes []string
 	inited   map[string]bool
 	sentinel map[string]Value
@@ -304,6 +308,7 @@ func NewMachine(p *Program, solverKind string, timeoutMs int) (*Machine, error) 
 	m.Stats.AssertLabels = map[string]int{}
 	m.seenViol = map[string]bool{}
 	m.intr = buildIntrinsics()
+	m.Debug = os.Getenv("SYMGO_TRACE") != ""
 	m.MaxSamples = 3
 	return m, nil
 }
@@ -336,6 +341,7 @@ func (m *Machine) resetPath() {
 	m.inited = map[string]bool{}
 	m.sentinel = map[string]Value{}
 	m.pathNotes = nil
+	m.model = map[string]uint64{}
 	m.forkHash = 2166136261
 	m.forkCount = 0
 }
@@ -354,26 +360,62 @@ func (m *Machine) check(extra *smt.Term, model []*smt.Term) (smt.Result, map[int
 	if extra != nil {
 		as = append(as, extra)
 	}
-	return m.Solver.Check(as, model)
+	if slowDir == "" {
+		return m.Solver.Check(as, model)
+	}
+	t0 := time.Now()
+	r, mod := m.Solver.Check(as, model)
+	if d := time.Since(t0); d > 40*time.Millisecond {
+		slowN++
+		os.WriteFile(fmt.Sprintf("%s/q-%s-%d-%dms-%s.smt2", slowDir, m.Harness, slowN, d.Milliseconds(), r), []byte(smt.Standalone(m.St, as)), 0o644)
+	}
+	return r, mod
+}
+
+var slowDir = os.Getenv("SYMGO_SLOWDIR")
+var slowN int
+
+// checkModel decides pc ∧ extra and, when satisfiable, returns an assignment of all nd variables of the path.
+func (m *Machine) checkModel(extra *smt.Term) (smt.Result, map[string]uint64) {
+	mt := m.modelTerms()
+	r, mod := m.check(extra, mt)
+	if r != smt.Sat || (mod == nil && len(mt) > 0) {
+		return r, nil
+	}
+	out := make(map[string]uint64, len(mt))
+	for _, t := range mt {
+		out[t.Name] = mod[t.ID]
+	}
+	return r, out
+}
+
+func (m *Machine) evalModel(c *smt.Term) (bool, bool) {
+	if m.model == nil {
+		return false, false
+	}
+	return smt.Eval(c, m.model, map[int]uint64{}) == 1, true
 }
 
 // choose returns the alternative to follow at this choice point; compute is
 // called only when the point is new and must return the feasible alternatives.
-func (m *Machine) choose(compute func() []int) int {
+func (m *Machine) choose(compute func() ([]int, []map[string]uint64)) int {
 	var c choice
 	if m.pos < len(m.trail) {
 		c = m.trail[m.pos]
 	} else {
-		alts := compute()
+		alts, models := compute()
 		if len(alts) == 0 {
 			panic(pathAbort{"no feasible alternative"})
 		}
-		c = choice{alts: alts}
+		c = choice{alts: alts, models: models}
 		m.trail = append(m.trail, c)
 		m.Stats.ChoicePoints++
 	}
 	m.pos++
 	alt := c.alts[c.cur]
+	if c.models != nil {
+		m.model = c.models[c.cur]
+	}
 	if len(c.alts) > 1 && m.ShardN > 1 {
 		// only real forks count towards the shard prefix
 		if m.forkCount == m.ShardDepth {
@@ -402,19 +444,45 @@ func (m *Machine) Branch(c *smt.Term) bool {
 	if m.Concrete != nil {
 		return m.evalConcrete(c) == 1
 	}
-	alt := m.choose(func() []int {
+	alt := m.choose(func() ([]int, []map[string]uint64) {
+		cur := m.model
+		if v, ok := m.evalModel(c); ok {
+			// the current model already witnesses one side; only the other needs the solver
+			other := nc
+			if !v {
+				other = c
+			}
+			m.Stats.FeasQueries++
+			r, om := m.checkModel(other)
+			mine, his := 0, 1
+			if !v {
+				mine, his = 1, 0
+			}
+			switch r {
+			case smt.Unsat:
+				return []int{mine}, []map[string]uint64{cur}
+			case smt.Unknown:
+				m.Stats.UnknownFeas++
+				m.pcMaybe = true
+			}
+			if mine == 0 {
+				return []int{0, 1}, []map[string]uint64{cur, om}
+			}
+			_ = his
+			return []int{0, 1}, []map[string]uint64{om, cur}
+		}
 		m.Stats.FeasQueries++
-		r1, _ := m.check(c, nil)
+		r1, m1 := m.checkModel(c)
 		if r1 == smt.Unsat {
-			return []int{1}
+			return []int{1}, []map[string]uint64{nil}
 		}
 		if r1 == smt.Unknown {
 			m.Stats.UnknownFeas++
 		}
 		m.Stats.FeasQueries++
-		r2, _ := m.check(nc, nil)
+		r2, m2 := m.checkModel(nc)
 		if r2 == smt.Unsat {
-			return []int{0}
+			return []int{0}, []map[string]uint64{m1}
 		}
 		if r2 == smt.Unknown {
 			m.Stats.UnknownFeas++
@@ -422,7 +490,7 @@ func (m *Machine) Branch(c *smt.Term) bool {
 		if r1 == smt.Unknown || r2 == smt.Unknown {
 			m.pcMaybe = true
 		}
-		return []int{0, 1}
+		return []int{0, 1}, []map[string]uint64{m1, m2}
 	})
 	if alt == 0 {
 		m.addPC(c)
@@ -449,12 +517,12 @@ func (m *Machine) Choice(name string, n int) int {
 			v = 0
 		}
 	} else {
-		v = m.choose(func() []int {
+		v = m.choose(func() ([]int, []map[string]uint64) {
 			a := make([]int, n)
 			for i := range a {
 				a[i] = i
 			}
-			return a
+			return a, nil
 		})
 	}
 	m.ndVars = append(m.ndVars, NdVar{Name: name, Kind: "choice", Val: v})
@@ -486,6 +554,17 @@ func (m *Machine) Nd(name, kind string, width int) *smt.Term {
 	}
 	t = m.St.Var(name, smt.Sort(width))
 	m.ndVars = append(m.ndVars, NdVar{Name: name, Kind: kind, Term: t})
+	if m.model != nil {
+		if _, ok := m.model[name]; !ok {
+			// the path condition does not mention the new variable: any value extends the model
+			nm := make(map[string]uint64, len(m.model)+1)
+			for k, v := range m.model {
+				nm[k] = v
+			}
+			nm[name] = 0
+			m.model = nm
+		}
+	}
 	return t
 }
 
@@ -506,17 +585,20 @@ func (m *Machine) Assume(c *smt.Term) {
 		}
 		return
 	}
-	alt := m.choose(func() []int {
+	alt := m.choose(func() ([]int, []map[string]uint64) {
+		if v, ok := m.evalModel(c); ok && v {
+			return []int{0}, []map[string]uint64{m.model}
+		}
 		m.Stats.FeasQueries++
-		r, _ := m.check(c, nil)
+		r, mod := m.checkModel(c)
 		if r == smt.Unsat {
-			return []int{1}
+			return []int{1}, []map[string]uint64{nil}
 		}
 		if r == smt.Unknown {
 			m.Stats.UnknownFeas++
 			m.pcMaybe = true
 		}
-		return []int{0}
+		return []int{0}, []map[string]uint64{mod}
 	})
 	if alt == 1 {
 		panic(pathAbort{"assumption infeasible"})
@@ -585,7 +667,11 @@ func (m *Machine) Assert(label string, c *smt.Term) {
 	m.Stats.AssertQueries++
 	m.Stats.AssertLabels[label]++
 	if c.IsConst() {
-		m.Stats.AssertTrivial++
+		if len(m.pc) > 0 {
+			m.Stats.AssertNontriv++ // decided by the feasibility queries that built this path condition
+		} else {
+			m.Stats.AssertTrivial++
+		}
 		if c.C == 0 {
 			// violated on a feasible path: need a model of the pc
 			if m.Concrete != nil {
@@ -614,7 +700,18 @@ func (m *Machine) Assert(label string, c *smt.Term) {
 	}
 	m.Stats.AssertNontriv++
 	nc := m.St.Not(c)
-	r, model := m.check(nc, m.modelTerms())
+	var r smt.Result
+	var model map[int]uint64
+	if v, ok := m.evalModel(c); ok && !v {
+		// the current model of the path condition already falsifies the assertion
+		r = smt.Sat
+		model = map[int]uint64{}
+		for _, t := range m.modelTerms() {
+			model[t.ID] = m.model[t.Name]
+		}
+	} else {
+		r, model = m.check(nc, m.modelTerms())
+	}
 	switch r {
 	case smt.Unsat:
 		// holds; it is now a known fact on this path
@@ -622,10 +719,11 @@ func (m *Machine) Assert(label string, c *smt.Term) {
 	case smt.Sat:
 		m.recordViolation("assert", label, "", model)
 		// continue under the assumption that it held, if that is feasible
-		rr, _ := m.check(c, nil)
+		rr, mod := m.checkModel(c)
 		if rr == smt.Unsat {
 			panic(pathAbort{"assertion fails on the whole path"})
 		}
+		m.model = mod
 		m.addPC(c)
 	default:
 		m.Stats.UnknownAssert++
@@ -680,6 +778,9 @@ func (m *Machine) Explore(fn *ssa.Function) (res RunResult) {
 		m.runOnePath(fn, inconc)
 		m.Stats.Paths++
 		m.Stats.Steps += int64(m.steps)
+		if m.Debug {
+			fmt.Fprintf(os.Stderr, "[path %d] steps=%d trail=%v pc=%d notes=%v\n", m.Stats.Paths, m.steps, m.trailSig(), len(m.pc), m.pathNotes)
+		}
 		if m.Concrete != nil {
 			break
 		}
